@@ -23,6 +23,13 @@ Theorem C03_temperature_equation_inverts_the_model gamma Ttrue c alpha ta : ~ Tt
   gamma / ((gamma / Ttrue - c + alpha - ta) + c - alpha + ta) == Ttrue.
 Proof. intros HT Hg. split; [exact (temp_recovers gamma Ttrue c alpha ta HT Hg)|exact (temp_recovers_bw gamma Ttrue c alpha ta HT Hg)]. Qed.
 
+(* T13b: conversely ANY minimiser of consistent (noise-free) data has zero cost, hence - with positive weights - reproduces every
+   observation exactly; by T14 the calibrated temperature at every reference location is then the true one *)
+Theorem C03_any_minimiser_of_consistent_data_reproduces_the_observations (rows : list (row (P:=param))) p_true q :
+  (forall r, In r rows -> 0 <= rwgt r) -> (forall r, In r rows -> resid r p_true == 0) ->
+  S rows q <= S rows p_true -> forall r, In r rows -> 0 < rwgt r -> resid r q == 0.
+Proof. exact (minimiser_of_consistent_data rows p_true q). Qed.
+
 (* T15: pairing of matching sections, for any order of the tuples *)
 Theorem C03_matching_pairs xs m ms ms' :
   match_pairs xs (m :: ms) =
@@ -33,4 +40,4 @@ Proof. split; [exact (match_pairs_cons xs m ms)|exact (match_pairs_perm xs ms ms
 Example C03_ex : match_pairs [0;1;2;3;4;5;6;7] [((5,6),(1,2),true); ((0,0),(7,7),false)] = [(5,2);(6,1);(0,7)]%nat.
 Proof. vm_compute. reflexivity. Qed.
 
-Print Assumptions C03_truth_is_an_optimum. Print Assumptions C03_temperature_equation_inverts_the_model. Print Assumptions C03_matching_pairs.
+Print Assumptions C03_truth_is_an_optimum. Print Assumptions C03_temperature_equation_inverts_the_model. Print Assumptions C03_matching_pairs. Print Assumptions C03_any_minimiser_of_consistent_data_reproduces_the_observations.
